@@ -1,3 +1,4 @@
+import GoSSE.Proofs.GenEquivQueue
 import GoSSE.Proofs.QueueValid
 /-!
 # C09 — ValidReplayer replays exactly the unexpired events after the given ID
@@ -196,5 +197,24 @@ example :
     v.replay 9 ⟨some [65], [[97]], none, false⟩ =
       .ok ⟨[.send ⟨1, some [66], [[97]], 10⟩, .send ⟨2, some [67], [[97]], 10⟩, .send ⟨3, some [68], [[97]], 10⟩, .flush], .nil⟩ ∧
     v.replay 10 ⟨some [65], [[97]], none, false⟩ = .ok ⟨[.flush], .nil⟩ := by decide
+
+
+/-! ### The translated source text (regenerated from /repo on every run) -/
+
+/-- `queue[T].dequeue` and `queue[T].resize` *as translated from replay.go* (`make`, the two `copy` calls and the
+three slice expressions checked operations) produce, from every queue state, exactly the state of the model's
+functions (`resize_preserves_abs`, `gc_refines` above are about those), panicking exactly where the model does. -/
+theorem translated_dequeue_is_model (fuel : Nat) (q : Queue) (hc : 0 < q.count) :
+    GenEquiv.Agrees (Gen.queue_dequeue fuel (GenEquiv.toGen q)) (Queue.dequeue q) :=
+  GenEquiv.dequeue_eq fuel q hc
+
+theorem translated_resize_is_model (fuel : Nat) (q : Queue) (n : Nat) :
+    GenEquiv.Agrees (Gen.queue_resize fuel (GenEquiv.toGen q) (n : Int)) (Queue.resize q n) :=
+  GenEquiv.resize_eq fuel q n
+
+/-- non-vacuity: the translated `resize` on a wrapped ring [c, _, a, b] (head 2, tail 1) growing to 6 slots -/
+example :
+    Gen.queue_resize 1 ({ buf := [some 3, none, some 1, some 2], head := 2, tail := 1, count := 3 } : Gen.queue (Option Nat)) 6
+      = .ok { buf := [some 1, some 2, some 3, none, none, none], head := 0, tail := 3, count := 3 } := by rfl
 
 end GoSSE.Props.C09
